@@ -262,17 +262,17 @@ open H2.Client
 /-- **Full.delivered_at_most_once**: in any run of the full model from a new connection, for every tag, at most one
 output hands a result of the request with that tag to its caller (`readRes (some _)`); no hypothesis on the tags -/
 theorem Full.delivered_at_most_once (c : Conn) (h : Init c) (evs : List Event) (tag : String) :
-    ((run c evs).2.filter (delivered tag)).length ≤ 1 :=
+    ((run c evs).2.filter (deliveredTo tag)).length ≤ 1 :=
   deliveries_le_one tag evs c (init_inv h)
 
 /-- **Full.read_again_after_delivery**: if the step after `pre` delivers the result of `tag`, that step is the caller's
 `read tag`, and in whatever follows nothing more is delivered for the tag and every `read tag` answers `readAgain` -/
 theorem Full.read_again_after_delivery (c : Conn) (h : Init c) (pre : List Event) (e : Event) (post : List Event)
-    (tag : String) (hd : delivered tag (step (run c pre).1 e).2 = true) :
+    (tag : String) (hd : deliveredTo tag (step (run c pre).1 e).2 = true) :
     e = .read tag ∧
-    AllSteps (fun _ ev _ o => delivered tag o = false ∧ (ev = .read tag → o = .readAgain)) (step (run c pre).1 e).1 post := by
+    AllSteps (fun _ ev _ o => deliveredTo tag o = false ∧ (ev = .read tag → o = .readAgain)) (step (run c pre).1 e).1 post := by
   have hi := run_invariant (init_inv h) pre
-  obtain ⟨he, hr⟩ := delivered_marks _ e tag hd
+  obtain ⟨he, hr⟩ := deliveredTo_marks _ e tag hd
   exact ⟨he, H2.Client.read_again_after_delivery tag _ (step_inv _ e hi) hr post⟩
 
 /-- **Full.resolve_never_overwrites**: what `Ctx.resolve` does in the model, exactly: a request that was taken back by
@@ -340,11 +340,11 @@ def fullRun : List Event := [.req (fullReq "a"), .bytes fullResp, .read "a", .re
 example : Init ({} : Conn) := init_default
 
 /-- the run delivers exactly one result for "a" (the second `read` answers `readAgain`) and one for "b" -/
-example : ((run {} fullRun).2.filter (delivered "a")).length = 1 ∧ ((run {} fullRun).2.filter (delivered "b")).length = 1 := by
+example : ((run {} fullRun).2.filter (deliveredTo "a")).length = 1 ∧ ((run {} fullRun).2.filter (deliveredTo "b")).length = 1 := by
   decide +kernel
 
 /-- `Full.read_again_after_delivery` is used: the third step delivers -/
-example : delivered "a" (step (run {} (fullRun.take 2)).1 (.read "a")).2 = true := by decide +kernel
+example : deliveredTo "a" (step (run {} (fullRun.take 2)).1 (.read "a")).2 = true := by decide +kernel
 
 /-- `Full.result_kept`: after the response "a" holds `ok`; `Close` and another request do not change it -/
 example : (getReq (run {} (fullRun.take 2)).1 "a").map (·.errBuf) = some (some .ok) := by decide +kernel
